@@ -2,7 +2,7 @@ SPECIFICATION Spec
 CONSTANTS
   SizesC <- SizesSmall
   NBC = 4
-  Times = {1, 2, 5, 17, 61}
+  Times = {1, 4, 5, 8, 17, 61}
   MaxOps = 3
   Repaired = TRUE
 INVARIANTS TotalOK WindowsOK RangeOK LatestOK
